@@ -13,7 +13,7 @@ RULE = ('values with prior formatting x pattern: plain strings containing regex 
 ASSUMPTIONS = ['the reference folds the library\'s own apply_formatting / remove_formatting over re.finditer matches (their correctness is C06/C07)',
                'only syntactically valid regular expressions are generated']
 
-CFG = gen.Cfg(esc=False, odd=0.1, invalid=True, incomplete=False, max_ops=3, alphabet='aAbB .-(*\n\n', min_text=2, max_text=12)
+CFG = gen.Cfg(esc=True, odd=0.1, invalid=True, incomplete=False, max_ops=3, alphabet='aAbB .-(*\n\n', min_text=2, max_text=12)
 
 REGEXES = ['a', 'A', 'ab', 'a*', 'a+', 'a?', 'a*?', '[ab]', '[^a]', 'a|b', 'a|ab', '(a)(b)', '^a', 'a$', '^', '$', '', 'b*', '.', '..', r'\.', r'\(',
            '(?:ab)+', 'a{2}', r'\b', '[A-Z]', 'a.', '(a|b)*', r'\s', r'\S+', 'B', '[aA]+', '^.', r'\w+$', '^b', 'b$', '(?m)^a', r'\Aa', r'a\Z', '(?s)a.b', 'a.b', '(?i)b$']
